@@ -329,13 +329,23 @@ func c12Gen(t *rapid.T) c12Case {
 	if rapid.Bool().Draw(t, "smalloff") {
 		c.DX, c.DY = max(-M-lo.X, min(M-hi.X, c.DX%7)), max(-M-lo.Y, min(M-hi.Y, c.DY%7))
 	}
-	if c.Pair.EA.Scale == 0 && rapid.IntRange(0, 5).Draw(t, "faroff") == 0 {
+	bothLines := c.Pair.A.K == exact.KLine && c.Pair.B.K == exact.KLine
+	farOdds := 5
+	if bothLines {
+		farOdds = 1 // every second pair of lines: Line.ContainsLine has a walk of its own, with its own arithmetic
+	}
+	if c.Pair.EA.Scale == 0 && rapid.IntRange(0, farOdds).Draw(t, "faroff") == 0 {
 		// far from the origin, still exactly representable: the predicates only ever need coordinate
 		// differences, so absolute ordinates near 2^52 must not change an answer
 		// (not 2^52 and beyond: there the midpoint of two lattice points is no longer a double, which is outside the
 		// property's domain - "small enough that the library's float arithmetic is exact" - and the library's
 		// segment-in-ring analysis, which looks at the middle of a piece between two boundary contacts, has no exact answer)
 		off := []int64{1 << 30, 1 << 40, 1 << 50, (1 << 52) - (1 << 21), -(1 << 30), -(1 << 45), -((1 << 52) - (1 << 21)), 0}
+		if bothLines {
+			// two lines: nothing but differences of ordinates is ever needed (no midpoints), so integer lattice
+			// points stay exact up to 2^53
+			off = append(off, 1<<52, 3<<51, -(1 << 52))
+		}
 		c.DX = rapid.SampledFrom(off).Draw(t, "fardx")
 		c.DY = rapid.SampledFrom(off).Draw(t, "fardy")
 	}
